@@ -312,14 +312,23 @@ def inline_helpers(f, rounds=3, exclude=()):
             changed[0] = True
             return [sink(e)]
         out = []
+        # a parameter that the helper never re-binds and that is given a plain name keeps the caller's name (no copy): what the helper does to it is visibly done
+        # to the caller's object
+        rebound = {n.id for s_ in body for n in ast.walk(s_) if isinstance(n, ast.Name) and isinstance(n.ctx, (ast.Store, ast.Del))}
+        direct = {}
         for pn in params:
             v = bound.get(pn, defaults.get(pn))
             if v is None:
                 return None
+            if isinstance(v, ast.Name) and pn not in rebound and v.id not in rebound:
+                direct[pn] = v.id
+                continue
             out.append(ast.Assign(targets=[ast.Name(id=pre + pn, ctx=ast.Store())], value=v, lineno=call.lineno, col_offset=0))
 
         class Ren(ast.NodeTransformer):
             def visit_Name(s, n):
+                if n.id in direct:
+                    return ast.copy_location(ast.Name(id=direct[n.id], ctx=n.ctx), n)
                 if n.id in local:
                     return ast.copy_location(ast.Name(id=pre + n.id, ctx=n.ctx), n)
                 return n
